@@ -214,6 +214,8 @@ def judge_transaction(tx, utxo: dict, sig_cache=None):
                 sig_cache[ck] = ok
         if not ok:
             broken.append(('C01', 'signature-does-not-verify'))
+    if len(tx.serialize()) > MAX_BLOCK_SIZE:
+        broken.append(('C09', 'transaction-larger-than-a-block'))      # (it can never be part of a block of legal size)
     total_out = 0
     for out in tx.outputs:
         if not (0 < out.value <= MAX_SASHIMI):
